@@ -134,7 +134,7 @@ def run(chk):
             construct = '%s:%s:%s:%s' % ('panic' if lf.kind == 'panic' else 'unanalysable', kind, msg, cls)
             what = 'the %s %s (%s: %s) in %s for inputs with %s' % (
                 human, 'panics' if lf.kind == 'panic' else 'cannot be analysed', kind, msg, fn.split('::')[-1], cls or '; '.join(guard_text(lf, na)[-3:]))
-            key = chk.key(ent, 'R-panic', fn, construct)
+            key = chk.key(ent, 'R-panic', ent, construct)
             key = covering_known(key, known_c10) or key
             chk.ob('R-panic', '%s leaf %d' % (ent, i), False, key, what,
                    detail={'leaf': dump_leaf(lf, prog, na, heap=False), 'call_path': call_path(lf)}, site=sp)
